@@ -7,6 +7,19 @@ PROPS = {
             "hash function idealised as injective (Section hypothesis of the theorems); the run checks that no two recorded preimages collide",
             "byte strings shorter than 2^63 (Go slices); part-set totals below 2^62",
         ],
+        "level_text": "Coq theorems over an executable model of part_set.go and simple_tree.go, for all data, part sizes, arrival sequences (junk interleaved) and proofs: exact reassembly, accept-iff-genuine, rejected-unchanged, proof completeness, fixed-total soundness; cross-total soundness refuted with a witness (known finding F-17d). Model tied to /repo by a differential run of the extracted model against the real packages on generated and mutated cases, plus model-independent monitors.",
+        "level_note": "hash idealised as injective (Section hypothesis); model hand-written, validated by the correspondence run; extraction (ExtrOcamlBasic), OCaml runner and Go harness trusted",
         "notes": ["cross-total / leaf-vs-inner soundness of the simple Merkle tree is refuted (c17_proof_sound_cross_total_refuted) and listed as known finding F-17d"],
+    },
+    "C15": {
+        "props_file": "Props/C15.v",
+        "engines": [{"name": "voteset", "n_quick": 400, "n_thorough": 12000}],
+        "assumptions": [
+            "signature verification idealised: each vote carries the bit 'the signature verifies under the key the code checks it against', computed by the harness with the real ed25519 keys",
+            "validator sets below the int64 boundary (non-negative powers, total < 2^62); beyond it the Go arithmetic wraps (Example c15_overflow_boundary)",
+        ],
+        "level_text": "Coq theorems over an executable model of VoteSet.addVote/addVerifiedVote/SetPeerMaj23/MakeCommit and ValidatorSet.VerifyCommit, for every validator set below the int64 boundary and every operation sequence: majority soundness (distinct validators, > 2/3, exactly that block id), completeness (primary votes / tally), stability, counted-once, totality, rejected votes are no-ops, conflicts reported, MakeCommit verifies, VerifyCommit sound, key injectivity. Tied to /repo by differential runs of the extracted model against types.VoteSet with real ed25519 signatures, plus model-independent monitors.",
+        "level_note": "signature validity enters the model as a bit computed by the harness with the real keys; model hand-written, validated by correspondence; extraction, OCaml runner, Go harness trusted",
+        "notes": ["completeness is stated for primary (first valid) votes; an equivocating validator's second vote is by design tallied only for blocks a peer claimed (DESIGN C15)"],
     },
 }
